@@ -50,6 +50,10 @@ def run(ctx, focus="C05"):
         process, sensor = eh.make_noises(ctx.rng, d)
         if "direct9" in sensor:
             sensor["direct9"] = {r: v / 64 for r, v in sensor["direct9"].items()}     # precise sensor: correlation matters
+            if i % 8 == 1:
+                # a very precise one: the variance given is the variance used, whatever its magnitude
+                sensor["direct9"] = {r: F(j + 1, ctx.rng.choice([10 ** 8, 2 ** 23])) for j, r in enumerate(sorted(sensor["direct9"]))}
+                ctx.count("tiny_sensor_noise")
         pts = [gen.gen_point(ctx.rng, d) for _ in range(npts)]
         cal = pts[0]["cal"]
         filtering = ctx.rng.choice([None, 1000.0])
